@@ -76,7 +76,7 @@ package regular
 
 //@ func (*csrAgentKey).addCSR(c, csr)
 //@   requires c != nil
-//@   modifies c.csrs
+//@   modifies c.csrs, elems(c.csrs)
 //@   ensures len(c.csrs) == old(len(c.csrs)) + 1 && c.csrs[old(len(c.csrs))] == csr
 //@   ensures forall(i, 0 <= i && i < old(len(c.csrs)), c.csrs[i] == old(c.csrs[i]))
 
@@ -87,15 +87,15 @@ package regular
 //@ func (*Handler).generateAgentKey(h)
 //@   flag logged
 //@   requires h != nil && h.conf != nil && h.agent != nil
-//@   let n0 = old(calls(agssh.NewSSHAgentKeyWithOpt))
-//@   ensures calls(agssh.NewSSHAgentKeyWithOpt) == n0 + 1 && arg(agssh.NewSSHAgentKeyWithOpt, n0, 0) == h.agent
-//@   ensures [lifetime-is-validity-plus-one-hour] arg(agssh.NewSSHAgentKeyWithOpt, n0, 1).PrivateKeyValiditySec == ((h.conf.CertValiditySec % 4294967296) + 3600) % 4294967296
+//@   let n0 = old(calls(ssh.NewSSHAgentKeyWithOpt))
+//@   ensures calls(ssh.NewSSHAgentKeyWithOpt) == n0 + 1 && arg(ssh.NewSSHAgentKeyWithOpt, n0, 0) == h.agent
+//@   ensures [lifetime-is-validity-plus-one-hour] arg(ssh.NewSSHAgentKeyWithOpt, n0, 1).PrivateKeyValiditySec == ((h.conf.CertValiditySec % 4294967296) + 3600) % 4294967296
 //@   ensures [finite-lifetime-not-shorter-than-validity] (1 <= h.conf.CertValiditySec && h.conf.CertValiditySec <= 315360000) ==>
-//@     (arg(agssh.NewSSHAgentKeyWithOpt, n0, 1).PrivateKeyValiditySec == h.conf.CertValiditySec + 3600 && arg(agssh.NewSSHAgentKeyWithOpt, n0, 1).PrivateKeyValiditySec != 0)
-//@   ensures [handler-label-and-filter] arg(agssh.NewSSHAgentKeyWithOpt, n0, 1).CertLabel == "paranoids.regular-cert" &&
-//@     contains(arg(agssh.NewSSHAgentKeyWithOpt, n0, 1).CertLabel, "paranoids.regular") &&
-//@     arg(agssh.NewSSHAgentKeyWithOpt, n0, 1).KeyRefreshFilter == keyFilter
-//@   ensures [private-key-label-is-not-selected-by-the-filter] arg(agssh.NewSSHAgentKeyWithOpt, n0, 1).PrivateKeyLabel == "private-key"
-//@   ensures err == nil ==> (result0 != nil && fresh(result0) && result0.AgentKey == ret(agssh.NewSSHAgentKeyWithOpt, n0, 0) && result0.AgentKey != nil && len(result0.csrs) == 0)
-//@   ensures err == nil <==> ret(agssh.NewSSHAgentKeyWithOpt, n0, 1) == nil
+//@     (arg(ssh.NewSSHAgentKeyWithOpt, n0, 1).PrivateKeyValiditySec == h.conf.CertValiditySec + 3600 && arg(ssh.NewSSHAgentKeyWithOpt, n0, 1).PrivateKeyValiditySec != 0)
+//@   ensures [handler-label-and-filter] arg(ssh.NewSSHAgentKeyWithOpt, n0, 1).CertLabel == "paranoids.regular-cert" &&
+//@     contains(arg(ssh.NewSSHAgentKeyWithOpt, n0, 1).CertLabel, "paranoids.regular") &&
+//@     arg(ssh.NewSSHAgentKeyWithOpt, n0, 1).KeyRefreshFilter == keyFilter
+//@   ensures [private-key-label-is-not-selected-by-the-filter] arg(ssh.NewSSHAgentKeyWithOpt, n0, 1).PrivateKeyLabel == "private-key"
+//@   ensures err == nil ==> (result0 != nil && fresh(result0) && result0.AgentKey == ret(ssh.NewSSHAgentKeyWithOpt, n0, 0) && result0.AgentKey != nil && len(result0.csrs) == 0)
+//@   ensures err == nil <==> ret(ssh.NewSSHAgentKeyWithOpt, n0, 1) == nil
 //@   ensures err != nil ==> result0 == nil
